@@ -15,7 +15,9 @@ def wrapping_indices(L):
     for M in (2 ** 31, 2 ** 32, 2 ** 33, 2 ** 63, 2 ** 64 - 2 ** 32, 3 * 2 ** 32):
         out += [b'%d' % M, b'%d' % (M + max(L - 1, 0)), b'%d' % (M + 1)]
     return out
-NUMS = [0.0, 1.0, -1.0, 1.5, 1e20, 42.0, 2147483648.0, 0.25, -7e-3, 123456789.0]
+NUMS = [0.0, 1.0, -1.0, 1.5, 1e20, 42.0, 2147483648.0, 0.25, -7e-3, 123456789.0,
+        # magnitudes far below 1, pairwise further apart than any tolerance could bridge
+        1e-20, 3e-20, 1e-17, 5e-324, 1e-310, 3e-310, -1e-310, 2.5e-300, -2.5e-300, 6.626e-34, 2.2250738585072014e-308]
 STRS = [b'', b'x', b'X', b'hello', b'a/b', b'~', b'\xc3\xa9', b'with space', b'0']
 
 
@@ -659,7 +661,11 @@ def mutate_doc(rng, doc, nulls=True):
         nodes = all_nodes(d)
         n = rng.choice(nodes)
         r = rng.random()
-        if r < 0.25 and n.kind == 'o':
+        if n.kind == 'n' and rng.random() < 0.5:
+            # a number changes into another number, in place
+            nn = Node.num(rng.choice([x for x in NUMS if x != n.dbl]))
+            n.bits, n.ival = nn.bits, nn.ival
+        elif r < 0.25 and n.kind == 'o':
             ks = [k for k in PTR_KEYS if rfc.member(n, k) is None]
             if ks:
                 c = gen_doc(rng, depth=2, maxdepth=4, nulls=nulls)
